@@ -51,7 +51,7 @@ var mirrored = map[token.Token]token.Token{token.GTR: token.LSS, token.LSS: toke
 var opAssign = map[token.Token]token.Token{token.ADD_ASSIGN: token.ADD, token.SUB_ASSIGN: token.SUB, token.MUL_ASSIGN: token.MUL, token.QUO_ASSIGN: token.QUO, token.REM_ASSIGN: token.REM, token.OR_ASSIGN: token.OR, token.AND_ASSIGN: token.AND, token.XOR_ASSIGN: token.XOR, token.SHL_ASSIGN: token.SHL, token.SHR_ASSIGN: token.SHR}
 
 func runC07(c *core.Ctx) {
-	c.Explanation = "Structural necessary conditions of the evaluator's semantics, decided on typed syntax and SSA of interpreter, interpreter/assign, interpreter/operator and interpreter/variable: (ops.dispatch) the compiled operator→implementation tables of doAssign, ProcessInfixExpression and ProcessCaseStatement equal the VCL operator table, with operands passed left-then-right; (ops.kernel) in every implementing function each Go expression that combines a value derived from the left operand with one derived from the right operand uses that function's own operator, left operand first for the non-commutative ones (one swapped token in one type cell changes the result for all operands of those types); (ops.sibling) the four ordering comparisons have the same (left type, right type) cells with the same conversions and differ only in the operator, and `<`/`>` and `<=`/`>=` are mirror images cell by cell (duality); (ops.negate) != and !~ are the negation of == and ~ on the same operands; (ops.notset) string equality and truthiness consult the not-set flag; (acl.*) the ACL verdict is returned after the scan (order independence) unless entries are sorted, negation is consulted only for a containing entry, prefix lengths are compared, and the default mask depends on the address family; (rot.*) rotation never shifts a signed value right and rotates in the stated direction; (branch.*) a block of an if/else-if/else chain or a switch case runs only under the truth edge of its own condition, at most one block per chain, else after all tests, first matching case wins, fallthrough continues with the next case unconditionally."
+	c.Explanation = "Structural necessary conditions of the evaluator's semantics, decided on typed syntax and SSA of interpreter, interpreter/assign, interpreter/operator and interpreter/variable: (ops.dispatch) the compiled operator→implementation tables of doAssign, ProcessInfixExpression and ProcessCaseStatement equal the VCL operator table, with operands passed left-then-right; (ops.kernel) in every implementing function each Go expression that combines a value derived from the left operand with one derived from the right operand uses that function's own operator, left operand first for the non-commutative ones (one swapped token in one type cell changes the result for all operands of those types); (ops.sibling) the four ordering comparisons have the same (left type, right type) cells with the same conversions and differ only in the operator, and `<`/`>` and `<=`/`>=` are mirror images cell by cell (duality); (ops.negate) != and !~ are the negation of == and ~ on the same operands; (ops.notset) string equality and truthiness consult the not-set flag, and LocalVariables.Set clears the flag of a STRING local after every successful assignment whatever the operator and value; (acl.*) the ACL verdict is returned after the scan (order independence) unless entries are sorted, negation is consulted only for a containing entry, prefix lengths are compared, and the default mask depends on the address family; (rot.*) rotation never shifts a signed value right and rotates in the stated direction; (branch.*) a block of an if/else-if/else chain or a switch case runs only under the truth edge of its own condition, at most one block per chain, else after all tests, first matching case wins, fallthrough continues with the next case unconditionally."
 	c.NotCovered = []string{"numeric results for particular operands (saturation thresholds, float rounding)", "regular expression matching itself (pcre library)", "string conversion of values (value.String methods)", "header sub-field algebra (C17)"}
 	checkDispatchTables(c)
 	checkKernels(c)
@@ -711,6 +711,76 @@ func checkKernels(c *core.Ctx) {
 		}
 	}
 	_ = n
+	checkLocalNotSet(c)
+}
+
+// checkLocalNotSet (ops.notset): "a not-set string reads as empty once assigned to a local" - LocalVariables.Set clears
+// String.IsNotSet of the assigned local after every successful assignment: the store exists and is controlled only by
+// the success of the assignment and by the local being a STRING, never by the operator or the assigned value.
+func checkLocalNotSet(c *core.Ctx) {
+	prog := c.Prog
+	fn := prog.SSAFunc("interpreter/variable", "LocalVariables.Set")
+	if fn == nil {
+		c.MissingAnchor("ops.notset", "interpreter/variable.(LocalVariables).Set")
+		return
+	}
+	cd := core.NewCtrlDeps(fn)
+	found := false
+	for _, b := range fn.Blocks {
+		for _, in := range b.Instrs {
+			st, ok := in.(*ssa.Store)
+			if !ok {
+				continue
+			}
+			f := core.FieldOf(st.Addr)
+			if f == nil || f.Name() != "IsNotSet" {
+				continue
+			}
+			if k, ok := st.Val.(*ssa.Const); !ok || k.Value == nil || constant.BoolVal(k.Value) {
+				continue
+			}
+			found = true
+			var culprit string
+			for _, e := range cd.Transitive(b) {
+				cond := core.BranchCond(e.From)
+				if cond == nil {
+					continue
+				}
+				// the condition's own operands, not looking into calls (the error of doAssign is the success test)
+				seen := map[ssa.Value]bool{}
+				var walk func(x ssa.Value)
+				walk = func(x ssa.Value) {
+					if seen[x] {
+						return
+					}
+					seen[x] = true
+					if p, ok := x.(*ssa.Parameter); ok && (p.Name() == "operator" || p.Name() == "val") {
+						culprit = p.Name()
+					}
+					if _, isCall := x.(ssa.CallInstruction); isCall {
+						return
+					}
+					if in, ok := x.(ssa.Instruction); ok {
+						for _, op := range in.Operands(nil) {
+							if *op != nil {
+								walk(*op)
+							}
+						}
+					}
+				}
+				walk(cond)
+			}
+			key := "LocalVariables.Set|clear"
+			if culprit == "" {
+				c.Discharge("ops.notset", key, st.Pos(), "the not-set flag of a STRING local is cleared after every successful assignment, whatever the operator and value")
+			} else {
+				c.Report("ops.notset", key, st.Pos(), fmt.Sprintf("LocalVariables.Set clears the not-set flag of a STRING local only under a condition on %q: after some assignments the local holds text but still reads as not set (falsy, equal to nothing, not-set when copied to a header)", culprit))
+			}
+		}
+	}
+	if !found {
+		c.Report("ops.notset", "LocalVariables.Set|clear", fn.Pos(), "LocalVariables.Set never clears String.IsNotSet: a local assigned from a not-set value stays not set instead of reading as empty")
+	}
 }
 
 // ---------- ops.negate
